@@ -42,6 +42,8 @@ def rel_res(M, x, b):
 
 
 def run_case(case, seed):
+    if case[0] == "TOL":
+        return run_tol(case, seed)
     if case[0] == "AUTO":
         return run_auto(case, seed)
     term, algname = case
@@ -164,6 +166,52 @@ def run_auto(case, seed):
     return {"transitions": 1, "outcome": f"auto:{n}:{psd}", "violations": vio}
 
 
+def run_tol(case, seed):
+    """the requested tolerance must reach the big factor through every structural rule: a 1001 x 1001 factor (beyond the automatic switch, so
+    a dropped algorithm argument would fall back to CG / GMRES at the default 1e-6) with a spread spectrum (cond 100: ~130 CG steps to 1e-11)"""
+    _, struct, algname, how = case
+    n = 1001
+    g = P.rng(seed, "c06tol", struct)
+    d = g.permutation(np.linspace(1.0, 100.0, n))
+    A = cola.PSD(ops.LinearOperator(np.float64, (n, n), matmat=lambda X: d[:, None] * X))
+    Md = d
+    small = np.array([[2.0, 1.0], [1.0, 3.0]])
+    if struct == "scalar":
+        S, apply = 2.5 * A, (lambda X: 2.5 * Md[:, None] * X)
+    elif struct == "prod3":
+        e = np.linspace(0.5, 2.0, n)
+        S, apply = ops.Product(ops.Diagonal(e), A, ops.Diagonal(e)), (lambda X: e[:, None] * (Md[:, None] * (e[:, None] * X)))
+    elif struct == "kron":
+        S = ops.Kronecker(cola.PSD(ops.Dense(small)), A)
+        apply = lambda X: np.einsum("ij,jkc->ikc", small, (Md[None, :, None] * X.reshape(2, n, -1))).reshape(2 * n, -1)  # noqa: E731
+    elif struct == "blockdiag":
+        S = ops.BlockDiag(cola.PSD(ops.Dense(small)), A, multiplicities=[1, 2])
+        apply = lambda X: np.concatenate([small @ X[:2], Md[:, None] * X[2:2 + n], Md[:, None] * X[2 + n:]], 0)  # noqa: E731
+    elif struct == "neg-transpose":
+        S, apply = (-A).T, (lambda X: -Md[:, None] * X)
+    else:
+        raise ValueError(struct)
+    if struct in ("kron", "blockdiag", "scalar", "prod3"):
+        S = cola.PSD(S)
+    N = S.shape[0]
+    b = g.standard_normal((N, 2))
+    tol = 1e-11
+    alg = L.CG(tol=tol, max_iters=2000) if algname == "CG" else (L.GMRES(tol=tol, max_iters=400) if algname == "GMRES" else L.Auto(tol=tol, max_iters=2000))
+    vio = []
+    with warnings.catch_warnings():
+        warnings.simplefilter("ignore")
+        try:
+            x = np.asarray(L.inv(S, alg) @ b if how == "inv" else L.solve(S, b, alg))
+            rr = float(np.max(np.linalg.norm(apply(x) - b, axis=0) / np.linalg.norm(b, axis=0)))
+            if not np.all(np.isfinite(x)) or rr > 100 * tol:
+                vio.append({"key": f"C06|requested-tolerance|residual|{struct},{algname},{how}",
+                            "what": f"{algname}(tol=1e-11) through the {struct} rule on a 1001 x 1001 factor: residual {rr:.2e}", "detail": {"rel_residual": rr}})
+        except Exception as e:
+            vio.append({"key": f"C06|requested-tolerance|exc:{type(e).__name__}|{struct},{algname},{how}", "what": f"{struct},{algname}: {type(e).__name__}",
+                        "detail": {"msg": str(e)[:300]}})
+    return {"transitions": 1, "outcome": f"tol:{struct}:{algname}", "violations": vio}
+
+
 _DESC = {}
 
 
@@ -186,6 +234,12 @@ def cases(tier, seed):
         for psd in (True, False):
             for how in ("inv", "solve"):
                 out.append(["AUTO", n, psd, how])
+    for struct in ("scalar", "prod3", "kron", "blockdiag", "neg-transpose"):
+        for algname in ("CG", "Auto", "GMRES"):
+            if algname == "GMRES" and struct not in (("scalar", ) if tier == "quick" else ("scalar", "prod3", "neg-transpose")):
+                continue  # 400 Arnoldi steps on 1001 rows cost 6-8 s per column
+            for how in ("inv", "solve"):
+                out.append(["TOL", struct, algname, how])
     info["states"] = len(out)
     _DESC.update(info)
     return out
@@ -201,7 +255,8 @@ def describe(tier, seed):
                  "depth-1 nesting (T, H, -, 3 scalars, @, Product, kron, 3-factor Kronecker, BlockDiag with 3 multiplicity patterns)"
                  + (", capped depth-2 nestings" if tier == "thorough" else "") + " x algorithms " + ", ".join(ALGS)
                  + " x 4 right-hand sides x {inv@b, solve}; dense form, left product, transpose, adjoint on direct paths; "
-                   "Auto switch at 1000x1000 / 1001x1001 (PSD and general)",
+                   "Auto switch at 1000x1000 / 1001x1001 (PSD and general); requested tolerance 1e-11 through the scalar / 3-factor product / Kronecker / "
+                   "block-diagonal / negated-transpose rules on a 1001 x 1001 cond-100 factor with CG, Auto(tol) and GMRES",
         "alphabet": _DESC,
         "oracle": "relative residual <= 1e-9 (direct) / 1e-8 (CG, GMRES at tol 1e-10); inv(A).to_dense() vs numpy inverse of the reference (1e-7)",
         "exhaustive": not _DESC.get("depth2_cap_hit", False),
